@@ -312,7 +312,16 @@ def rule_c08_r1(model: Model) -> RuleResult:
             r.fail(q, 'no print_error', f"{ci.module.relpath}:{ci.node.lineno}", "error node class has no renderer of its own")
             continue
         r.analysed.add(pe.qualname)
-        used = {s.attr for s in ast.walk(pe.node) if isinstance(s, ast.Attribute) and isinstance(s.value, ast.Name) and s.value.id == 'self'}
+        # attributes read by the renderer and by the methods of the class it calls on self (on self or on a node derived from it)
+        closure = [pe]
+        for g in closure:
+            for c in ast.walk(g.node):
+                if isinstance(c, ast.Call) and isinstance(c.func, ast.Attribute) and isinstance(c.func.value, ast.Name) \
+                        and g.params and c.func.value.id == g.params[0]:
+                    h = model.find_method(q, c.func.attr)
+                    if h is not None and h not in closure and h.cls is not None and h.cls.qualname in error_node_classes(model):
+                        closure.append(h)
+        used = {s.attr for g in closure for s in ast.walk(g.node) if isinstance(s, ast.Attribute) and isinstance(s.ctx, ast.Load)}
         fields = error_fields(model, q)
         miss = [x for x in fields if x not in used]
         r.sample({'node': ci.name, 'fields': fields, 'unused': miss})
@@ -366,13 +375,17 @@ def rule_c08_r3(model: Model) -> RuleResult:
                 r.instances += 1
                 r.analysed.add(f.qualname)
                 errs = error_node_classes(model)
-                ctors = [s for st in h.body for s in ast.walk(st) if isinstance(s, ast.Call) and model.resolve(s.func, f.module, f) in errs]
+                # error-node constructions in the handler, directly or through a helper the normaliser inlines
+                calls = [s for st in h.body for s in ast.walk(st) if isinstance(s, ast.Call)]
                 ok = False
-                for c in ctors:
+                for c in calls:
                     rn = cfg.node_of(c)
                     if rn is None:
                         continue
+                    direct = model.resolve(c.func, f.module, f) in errs
                     form = nz.expr(c, rn)
+                    if not direct and not any(form.startswith(e + '(') or ('(' + e + '(') in form or ('|' + e + '(') in form for e in errs):
+                        continue
                     if 'traceback.TracebackException(type(EXC), EXC' in form or 'EXC.args' in form:
                         ok = True
                 r.sample({'function': f.qualname, 'handler': [c.split('.')[-1] for c in hc], 'carries_cause': ok})
@@ -502,4 +515,62 @@ def rule_c08_r6(model: Model) -> RuleResult:
             r.fail(f.qualname, f"fuse step requires empty: {sorted(have)}", f.loc(n.ast),
                    f"the outer node is replaced by its child although it still has {' / '.join(sorted(need - have))} fields of its own: "
                    f"their 'Missing required field' / 'Unexpected field' lines vanish from the message")
+    return r
+
+
+_MUTATORS = {'append', 'extend', 'insert', 'remove', 'clear', 'pop', 'sort', 'reverse', 'update', 'setdefault', 'popitem', 'add', 'discard',
+             '__setitem__', '__delitem__', 'difference_update', 'intersection_update', 'symmetric_difference_update'}
+
+
+def rule_render_pure(model: Model, rule_id: str = 'C08-R8') -> RuleResult:
+    """C07 / C08: rendering, comparing and printing an error tree never changes it."""
+    r = RuleResult(rule_id, 'no method of an error node stores into the node it is called on (rendering leaves the tree unchanged)', floor=6)
+    for q in sorted(error_node_classes(model)):
+        ci = model.cls(q)
+        for f in ci.methods.values():
+            if f.name in ('__init__', '__post_init__', '__new__') or not isinstance(f.node, ast.FunctionDef) or not f.params:
+                continue
+            cfg = cfg_of(model, f)
+            rd = cfg.reaching()
+            me = f.params[0]
+            r.instances += 1
+            r.analysed.add(f.qualname)
+            bad: t.List[t.Tuple[ast.AST, str]] = []
+
+            def is_self(e: ast.AST, n: Node) -> bool:
+                while isinstance(e, (ast.Attribute, ast.Subscript)):
+                    e = e.value
+                if not isinstance(e, ast.Name):
+                    return False
+                if e.id == me:
+                    return any(d.kind == 'param' for d in rd.at(n, me))
+                # an alias of the receiver: name = self
+                defs = rd.at(n, e.id)
+                return any(d.kind == 'assign' and isinstance(d.value, ast.Name) and d.value.id == me and not d.path
+                           and any(d2.kind == 'param' for d2 in rd.at(d.node, me)) for d in defs)
+            for n in cfg.live_nodes():
+                st = n.ast
+                if n.kind == 'stmt' and isinstance(st, (ast.Assign, ast.AugAssign, ast.AnnAssign, ast.Delete)):
+                    tgts = st.targets if isinstance(st, (ast.Assign, ast.Delete)) else [st.target]
+                    for tg in tgts:
+                        for x in ([tg] if not isinstance(tg, (ast.Tuple, ast.List)) else tg.elts):
+                            if isinstance(x, (ast.Attribute, ast.Subscript)) and is_self(x, n):
+                                bad.append((st, f"store to {unparse(x)}"))
+                for root in node_exprs(n):
+                    for c in walk_no_nested(root):
+                        if not isinstance(c, ast.Call):
+                            continue
+                        if isinstance(c.func, ast.Attribute) and c.func.attr in _MUTATORS and isinstance(c.func.value, (ast.Attribute, ast.Subscript)) \
+                                and is_self(c.func.value, n):
+                            bad.append((c, f"{unparse(c.func)}()"))
+                        fn = unparse(c.func)
+                        if fn in ('setattr', 'object.__setattr__', 'delattr', 'object.__delattr__') and c.args and is_self(c.args[0], n) \
+                                and isinstance(c.args[0], ast.Name):
+                            bad.append((c, f"{fn}({unparse(c.args[0])}, ...)"))
+            if bad:
+                for (node, what) in bad:
+                    r.fail(f.qualname, what, f.loc(node),
+                           "the error tree is rewritten by looking at it: after rendering, children / missing / extra no longer mirror the type")
+            else:
+                r.ok()
     return r
